@@ -31,6 +31,7 @@ type CmdDef struct {
 	Unset        bool     `json:"unset_options,omitempty"`
 	RequireOrder bool     `json:"require_order,omitempty"`
 	Unknown      int      `json:"unknown_mode,omitempty"` // -1 = inherit (0 is a mode), stored +1
+	SelfName     string   `json:"self_name,omitempty"`    // Self(name, description) called on the command: its display name in help
 	ArgComp      []string `json:"arg_completions,omitempty"`
 	Synopsis     []string `json:"synopsis_args,omitempty"`
 }
@@ -80,6 +81,9 @@ func (sc *Scenario) DefinitionCalls() []string {
 		if c.Unset {
 			out = append(out, path+".UnsetOptions()")
 		}
+		if c.SelfName != "" && path != "opt" {
+			out = append(out, fmt.Sprintf("%s.Self(%q, ...)", path, c.SelfName))
+		}
 		if c.RequireOrder {
 			out = append(out, path+".SetRequireOrder()")
 		}
@@ -97,7 +101,7 @@ func (sc *Scenario) DefinitionCalls() []string {
 
 // Words share prefixes on purpose (abbreviation ambiguity, completion lists with several entries).
 var words = []string{"v", "ver", "verbose", "version", "val", "value", "values", "f", "fo", "foo", "force", "file", "files", "b", "bar", "baz", "build", "x", "xy", "q", "quiet", "quick", "d", "debug", "dry", "t", "tag", "tags", "n", "name", "V", "Ver", "File", "Q", "B", "Tag", "N", "Name"}
-var cmdWords = []string{"build", "bench", "bump", "clean", "check", "clone", "test", "tidy", "run"}
+var cmdWords = []string{"build", "bench", "bump", "clean", "check", "clone", "test", "tidy", "run", "log", "logs", "login", "show", "slow", "status"}
 
 func genOpts(r *simrt.RNG, taken map[string]bool, n int, reqBias int) []OptDef {
 	var out []OptDef
@@ -125,6 +129,9 @@ func genOpts(r *simrt.RNG, taken map[string]bool, n int, reqBias int) []OptDef {
 				o.Valid = []string{"red", "green", "blue", "grey"}[:2+r.Intn(3)]
 			case 1:
 				o.Suggested = []string{"alpha", "beta", "gamma", "alps"}[:2+r.Intn(3)]
+				if r.Intn(2) == 0 { // values that look like an unfinished assignment
+					o.Suggested = append(o.Suggested, "a=", "alp=")
+				}
 				if r.Intn(3) == 0 { // a repeated entry
 					o.Suggested = append(o.Suggested, o.Suggested[0])
 				}
@@ -155,6 +162,9 @@ func copyTaken(t map[string]bool) map[string]bool {
 
 func genCmd(r *simrt.RNG, name string, taken map[string]bool, depth int, reqBias int) CmdDef {
 	c := CmdDef{Name: name, Fn: r.Intn(5) != 0}
+	if r.Intn(12) == 0 { // a display name set through Self; siblings may end up with the same one
+		c.SelfName = []string{"tool", "cmd", name}[r.Intn(3)]
+	}
 	c.Opts = genOpts(r, taken, r.Intn(5), reqBias)
 	if r.Intn(10) == 0 {
 		c.Unset = true
@@ -304,7 +314,7 @@ func Generate(seed uint64) *Scenario {
 				sc.Argv = append(sc.Argv, "help")
 			}
 		case 7:
-			sc.Argv = append(sc.Argv, []string{"pos", "help", "sub", "-", "b", "--", "--help", "-?"}[r.Intn(8)])
+			sc.Argv = append(sc.Argv, []string{"pos", "help", "sub", "-", "b", "--", "--help", "-?", "c", "s", "lo", "log", "t", "cl"}[r.Intn(14)])
 		case 8: // short forms (mode dependent)
 			if len(names) > 0 {
 				sc.Argv = append(sc.Argv, "-"+names[r.Intn(len(names))][:1]+names[r.Intn(len(names))][:1])
@@ -335,7 +345,10 @@ func Generate(seed uint64) *Scenario {
 		cc = &cc.Subs[r.Intn(len(cc.Subs))]
 		cl = append(cl, cc.Name)
 	}
-	last := []string{"", "-", "--", "--v", "--f", "b", "--fo", "--val=", "he", "c", "t", "--ver", "--b", "a", "ap", "--q"}[r.Intn(16)]
+	last := []string{"", "-", "--", "--v", "--f", "b", "--fo", "--val=", "he", "c", "t", "--ver", "--b", "a", "ap", "--q", "lo", "log", "s", "sh"}[r.Intn(20)]
+	if len(cc.Subs) > 0 && r.Intn(5) == 0 { // the word being completed is exactly a command name
+		last = cc.Subs[r.Intn(len(cc.Subs))].Name
+	}
 	if ns := allNames(cc); len(ns) > 0 && r.Intn(3) == 0 {
 		w := ns[r.Intn(len(ns))]
 		switch r.Intn(3) {
@@ -346,6 +359,23 @@ func Generate(seed uint64) *Scenario {
 		case 2:
 			last = "--" + w + "=a"
 		}
+	}
+	// value completion: aim at an option that has suggested/valid values, with a partial value
+	var withVals []*OptDef
+	for i := range cc.Opts {
+		if len(cc.Opts[i].Suggested)+len(cc.Opts[i].Valid) > 0 {
+			withVals = append(withVals, &cc.Opts[i])
+		}
+	}
+	if len(withVals) > 0 && r.Intn(2) == 0 {
+		o := withVals[r.Intn(len(withVals))]
+		vals := append(append([]string(nil), o.Suggested...), o.Valid...)
+		v := vals[r.Intn(len(vals))]
+		name := o.Name
+		if len(o.Aliases) > 0 && r.Intn(3) == 0 {
+			name = o.Aliases[r.Intn(len(o.Aliases))]
+		}
+		last = "--" + name + "=" + v[:r.Intn(len(v)+1)]
 	}
 	cl = append(cl, last)
 	sc.CompLine = strings.Join(cl, " ")
